@@ -103,5 +103,12 @@ Example C06_ex3 :
   = ev0 "'((1 2) no 3)".
 Proof. vm_compute. reflexivity. Qed.
 
+(* REFUTED for a macro call in head position (defect D36, known finding): the   *)
+(* expansion of ((-> when) t 1) is (when t 1), which is not a fixpoint             *)
+Example C06_stability_refuted_for_head_calls :
+  ev0 "(setq e1 (macroexpand '((-> when) t 1))) (list e1 (macroexpand e1))"
+  = ev0 "'((when t 1) (if t (progn 1)))".
+Proof. vm_compute. reflexivity. Qed.
+
 Check C06_expanded_is_fixpoint : forall F n x s f, expandedb n s x = true -> (n <= f)%nat ->
   run F f (TExpand x) s = (Ok x, s).
